@@ -362,6 +362,16 @@ impl Check for C06 {
                     ("statement after continue", "    loop v < 3 do\n        v += 1\n        continue\n        v = 9\n    end\n", None),
                     ("statement after <!>", "    if v > 5 do\n        <!>\n        v = 2\n    end\n", None),
                     ("two rets", "    h :: fn -> int do\n        ret 1\n        ret 2\n    end\n    print(h())\n", Some("statement_after_ret_in_same_block")),
+                    // dead code that opens blocks of its own
+                    ("closure defined and called after ret", "    h :: fn -> int do\n        ret 1\n        g :: fn -> int do 2 end\n        g()\n    end\n    print(h())\n", None),
+                    ("closure defined after ret in an if inside a loop", "    loop v < 3 do\n        v += 1\n        if t do\n            continue\n            g :: fn n: int do\n                print(n)\n            end\n            g(v)\n        end\n    end\n", None),
+                    ("closure defined after break", "    loop do\n        break\n        g :: fn do\n            v = 2\n        end\n        g()\n    end\n", None),
+                    ("loop after ret", "    h :: fn do\n        ret\n        loop v < 3 do\n            v += 1\n        end\n    end\n    h()\n", None),
+                    ("if/else after ret", "    h :: fn -> int do\n        ret 1\n        if t do\n            v = 2\n        else do\n            v = 3\n        end\n        2\n    end\n    print(h())\n", None),
+                    ("block after continue", "    loop v < 3 do\n        v += 1\n        continue\n        do\n            v = 9\n        end\n    end\n", None),
+                    ("case after ret", "    h :: fn do\n        ret\n        case Maybe.Just 1 do\n            Just q -> print(q) end\n            None -> end\n        end\n    end\n    h()\n", None),
+                    ("blob with method after ret", "    h :: fn do\n        ret\n        q := P { x: v }\n        print(q.x)\n    end\n    h()\n", None),
+                    ("lambda argument after ret", "    h :: fn do\n        ret\n        list.for_each([1, 2], fn e do\n            print(e)\n        end)\n    end\n    h()\n", None),
                 ];
                 let (name, body, hz) = variants[((index / 8) as usize) % variants.len()];
                 judge(st, index, "dead-code-after-jump", name, &base("x", body, ""), hz);
@@ -372,6 +382,13 @@ impl Check for C06 {
                 let (text, family, hz) = ladder(&mut rng, which, n);
                 st.maxi(&format!("ladder:{}", family), n as u64);
                 judge(st, index, "size-ladder", &format!("{}={}", family, n), &text, hz);
+            }
+            _ if index % 16 == 15 => {
+                // whole generated programs (closures, loops, case/if expressions, higher-order calls, dead
+                // code after ret/break/continue ...): whatever the compiler accepts must load
+                let p = crate::gen::generate(&mut rng, crate::gen::Cfg::general(2 + (index / 16 % 2) as u32));
+                let text = crate::print::canonical(&p);
+                judge(st, index, "generated-program", "typed generator", &text, Some("size_beyond_lua_limits"));
             }
             _ => {
                 // combinations: hostile field + string + number in one program
@@ -405,7 +422,7 @@ impl Check for C06 {
     }
     fn finish(&self, _ctx: &Ctx, st: &Stats) -> Finish {
         let mut inconclusive = Vec::new();
-        for fam in ["field-name", "string-literal", "number-literal", "unused-expression", "dead-code-after-jump", "size-ladder", "combination", "nested-operators"] {
+        for fam in ["field-name", "string-literal", "number-literal", "unused-expression", "dead-code-after-jump", "size-ladder", "combination", "nested-operators", "generated-program"] {
             if st.get(&format!("tried:{}", fam)) == 0 {
                 inconclusive.push(format!("family never tried: {}", fam));
             }
@@ -416,7 +433,7 @@ impl Check for C06 {
         Finish {
             level: "exploration",
             rule: format!(
-                "template programs with lexical slots filled from hostile pools: {} field names (Lua-only keywords, preamble globals), {} string literals (all printable ASCII, multi-byte, ]] and --, backslash sequences, embedded newline/CR), {} numeric literals (leading zeros, 1. .5, exponents, 1e308, 1e-400, i64 max, overflow to infinity), {} expression kinds as unused statements in 5 positions, statements after ret/break/continue/<!>, a bounded-exhaustive family of nested operator expressions outer(inner, inner) over 20 integer and 11 boolean building blocks (unary minus/not next to every binary operator, call, field, index, if- and case-expressions), 8 size ladders (reads per function, globals, parenthesis nesting, operator chains, call arguments, nested ifs, list elements, nested closures) over rungs {:?}. Oracle: luamon's load phase (syntax, return-not-last, break-outside-loop, goto rules, limits with grey zones). Non-trivial & distinct: accepted programs that loaded, by source hash.",
+                "template programs with lexical slots filled from hostile pools: {} field names (Lua-only keywords, preamble globals), {} string literals (all printable ASCII, multi-byte, ]] and --, backslash sequences, embedded newline/CR), {} numeric literals (leading zeros, 1. .5, exponents, 1e308, 1e-400, i64 max, overflow to infinity), {} expression kinds as unused statements in 5 positions, statements (also closures, loops, if/else, blocks, case, lambdas) after ret/break/continue/<!>, whole generated programs of the typed generator, a bounded-exhaustive family of nested operator expressions outer(inner, inner) over 20 integer and 11 boolean building blocks (unary minus/not next to every binary operator, call, field, index, if- and case-expressions), 8 size ladders (reads per function, globals, parenthesis nesting, operator chains, call arguments, nested ifs, list elements, nested closures) over rungs {:?}. Oracle: luamon's load phase (syntax, return-not-last, break-outside-loop, goto rules, limits with grey zones). Non-trivial & distinct: accepted programs that loaded, by source hash.",
                 FIELD_NAMES.len(),
                 STRINGS.len(),
                 NUMBERS.len(),
